@@ -284,6 +284,18 @@ WriteClauses(cur, e) ==
      <<p \o ".cycle.text1",   frag /\ e.out = "value" /\ k = 2 /\ cur.fmt = fmt /\ cur.gen = 1 /\ SameModel(cur.m1, cur.m0)
                                  => R.digest = cur.wd[1]>> >>
 
+\* what every successful read must satisfy, whatever was read (C02)
+ReadCommon(e) ==
+  LET b  == e.post
+      ok == e.out = "value" /\ e.anom = <<>>
+  IN
+  << <<"C02.read.shape", e.out = "value" => e.anom = <<>> >> >>
+  \o Guarded(ok, WfClauses("C02", b) \o AstClauses("C02", b)
+       \o << <<"C02.ctcfeatures", (\A i \in DOMAIN b.ctcs : WellShaped(b.ctcs[i].ast)) =>
+                  /\ e.ret.errors = <<>> /\ Len(e.ret.ctcfeatures) = Len(b.ctcs)
+                  /\ \A i \in DOMAIN b.ctcs : IsPropT(b.ctcs[i].ast) =>
+                        (NoDup(e.ret.ctcfeatures[i]) /\ SetOf(e.ret.ctcfeatures[i]) = VarsOf(b.ctcs[i].ast))>> >>)
+
 ReadClauses(cur, e) ==
   LET fmt == e.args.fmt
       p   == PropOfFmt(fmt)
@@ -291,18 +303,34 @@ ReadClauses(cur, e) ==
       frag == fmt \in Formats /\ InFrag(fmt, cur.m0) /\ cur.fmt = fmt
       ok  == e.out = "value" /\ e.anom = <<>>
   IN
-  << <<p \o ".read.total", frag => e.out = "value">>,
-     <<"C02.read.shape",    e.out = "value" => e.anom = <<>> >> >>
-  \o Guarded(ok, WfClauses("C02", b) \o AstClauses("C02", b)
-       \o << <<"C02.ctcfeatures", (\A i \in DOMAIN b.ctcs : WellShaped(b.ctcs[i].ast)) =>
-                  /\ e.ret.errors = <<>> /\ Len(e.ret.ctcfeatures) = Len(b.ctcs)
-                  /\ \A i \in DOMAIN b.ctcs : IsPropT(b.ctcs[i].ast) =>
-                        (NoDup(e.ret.ctcfeatures[i]) /\ SetOf(e.ret.ctcfeatures[i]) = VarsOf(b.ctcs[i].ast))>> >>)
+  << <<p \o ".read.total", frag => e.out = "value">> >>
+  \o ReadCommon(e)
   \o Guarded(fmt = "json" /\ frag,
        << <<"C05.parsejson", ok /\ cur.pj.out = "value" /\ cur.pj.anom = <<>> /\ cur.pj.post = b>> >>)
   \o Guarded(ok /\ frag /\ cur.gen = 0 /\ WellFormedTree(b), PreserveClauses(p, fmt, cur.m0, b))
   \o Guarded(frag /\ cur.gen >= 1,
        << <<p \o ".cycle.model", ok /\ SameModel(b, cur.m1)>> >>)
+
+\* Reading a document emitted by an independent reference emitter from the reference model
+\* e.args.model (C04 for UVL, C09 for the other formats); broken documents must be rejected.
+ReadRefClauses(cur, e) ==
+  LET fmt == e.args.fmt
+      ref == e.args.model
+      b   == e.post
+      p   == IF fmt = "uvl" THEN "C04" ELSE "C09." \o fmt
+      ok  == e.out = "value" /\ e.anom = <<>>
+  IN
+  IF e.args.broken # "none"
+  THEN << <<p \o ".rejects." \o e.args.broken, e.out # "value">> >>
+  ELSE
+  << <<p \o ".accepts", e.out = "value">> >>
+  \o ReadCommon(e)
+  \o Guarded(ok /\ WellFormedTree(b),
+       IF fmt = "uvl"
+       THEN << <<"C04.denote.tree", SameTree(b, ref)>>,
+               <<"C04.denote.ctcs", /\ Len(b.ctcs) = Len(ref.ctcs)
+                                    /\ \A i \in DOMAIN b.ctcs : b.ctcs[i].ast = ref.ctcs[i].ast>> >>
+       ELSE PreserveClauses(p, fmt, ref, b))
 
 ---------------------------------------------------------------------------
 (* Exports (C10, C11): e.ret.doc is the parsed abstract syntax *)
@@ -351,6 +379,7 @@ Clauses(cur, e) ==
     [] e.a = "Write"          -> WriteClauses(cur, e)
     [] e.a = "Export"         -> ExportClauses(cur, e)
     [] e.a = "Read"           -> ReadClauses(cur, e)
+    [] e.a = "ReadRef"        -> ReadRefClauses(cur, e)
     [] e.a = "ReadBack"       -> << <<"C12.utf8.names." \o e.args.fmt,
                                       e.out = "value" => (e.anom = <<>> /\ Names(e.post) = Names(cur.model))>> >>
     [] e.a = "ParseJson"      -> << <<"C05.parsejson.total", InFrag("json", cur.m0) => e.out = "value">> >>
